@@ -42,7 +42,7 @@ func NewGlobal(blockedDomains []string, blockedSubnets []netip.Prefix) (g *Globa
 
 	b := &strings.Builder{}
 	for _, h := range blockedDomains {
-		stringutil.WriteToBuilder(b, strings.ToLower(h), "\n")
+		stringutil.WriteToBuilder(b, lowerRule(h), "\n")
 	}
 
 	lists := []filterlist.RuleList{
